@@ -30,6 +30,10 @@ func Parse(source string) (expr Expression, err error) {
 	if err != nil {
 		return nil, err
 	}
+	if p.val == nil {
+		// (the source is one of the statements the tags parse - %assign, %loop ... - not an expression)
+		return nil, SyntaxError(fmt.Sprintf("syntax error in %q", source))
+	}
 	return &expression{p.val}, nil
 }
 
